@@ -67,6 +67,18 @@ func c02Transport(c *Ctx) {
 	c.Floor(R, "newClientConnection call in UTransport.doDial", n, 1)
 }
 
+// guardOnlyDifferences: effects the override has as well, but under other branch conditions than the base, with the reason.
+var guardOnlyDifferences = map[string]map[string]string{
+	"uPacketPacker.PackPTOProbePacket": func() map[string]string {
+		why := "an Initial probe packet of a spec client is padded by appendInitialPacket (exact-size / UDP-minimum padding from the spec) instead of initialPaddingLen; the base's padding computation is reached on the non-spec paths only"
+		m := map[string]string{}
+		for _, e := range []string{"call quic.packetPacker.initialPaddingLen", "arg maxPacketSize -> quic.packetPacker.initialPaddingLen*", "arg ~ -> *", "branch maxPacketSize", "branch ~", "return *", "call ackhandl*", "arg ~ -> ackhandler*"} {
+			m[e] = why
+		}
+		return m
+	}(),
+}
+
 type sibPair struct {
 	basePkg, baseRecv, uPkg, uRecv, method string
 	inline                                 int
@@ -85,6 +97,16 @@ func c02Overrides(c *Ctx) {
 		u := c.fn(p.uPkg, p.uRecv, p.method)
 		o := &sibOpts{Rename: uRename, Inline: p.inline, Self: map[*types.Func]bool{}}
 		c.sibCompare(R, p.baseRecv+"."+p.method+"⊑"+p.uRecv+"."+p.method, base, u, o, p.allowMissing, nil, false)
+		// second pass: the same effects under the same branch conditions; differences of the guard only are listed
+		og := &sibOpts{Rename: uRename, Inline: p.inline, Self: map[*types.Func]bool{}, Guards: true}
+		ag := map[string]string{}
+		for k, v := range p.allowMissing {
+			ag[k] = v
+		}
+		for k, v := range guardOnlyDifferences[p.uRecv+"."+p.method] {
+			ag[k] = v
+		}
+		c.sibCompare(R, p.baseRecv+"."+p.method+"⊑"+p.uRecv+"."+p.method+" (same guards)", base, u, og, ag, nil, false)
 	}
 	// every method of uCryptoSetup that shadows a cryptoSetup method
 	cs := c.named(hsk, "cryptoSetup")
